@@ -25,7 +25,7 @@ RULE = (
 )
 BOUNDS = {"rows": "12-400", "features": "1-3"}
 ASSUMPTIONS = ["the byte string is not compared (hash-ordered feature lists are representation only)"]
-BUDGET = {"quick": 800, "thorough": 30000}
+BUDGET = {"quick": 1400, "thorough": 30000}
 DEADLINE_S = {"quick": 200, "thorough": 3300}
 CLASSES = CARVERS + PIPELINES + STEPS + ("BinaryCarver", "ContinuousCarver", "Discretizer", "QuantitativeDiscretizer", "ChainedDiscretizer")
 INF = float("inf")
